@@ -81,7 +81,7 @@ def provided_types(cfg):
         cands = {v.name: v for v in candidate_types()}
         return [cands[n] for n in names]
     os.makedirs(d, exist_ok=True)
-    src = os.path.join(d, "probe.cpp")
+    src = os.path.join(d, "probe.%d.cpp" % os.getpid())      # per process: concurrent runs share the cache directory
     lines = ["#include <avel/Avel.hpp>",
              "template<class T, class = void> struct is_complete_ { static const bool value = false; };",
              "template<class T> struct is_complete_<T, decltype(void(sizeof(T)))> { static const bool value = true; };"]
@@ -90,7 +90,7 @@ def provided_types(cfg):
                      % (v.name, v.name, v.cpp))
     with open(src, "w") as fh:
         fh.write("\n".join(lines) + "\n")
-    ll = os.path.join(d, "probe.ll")
+    ll = os.path.join(d, "probe.%d.ll" % os.getpid())
     r = _compile_ir(src, ll, cfg, opt=("-O0",))
     if r.returncode != 0:
         raise Broken("type probe does not compile for %s: %s" % (cfg.name, r.stderr[-600:]))
@@ -102,8 +102,9 @@ def provided_types(cfg):
             raise Broken("type probe: constant has_%s not found" % v.name)
         if m.group(1) == "1":
             names.append(v.name)
-    with open(res, "w") as fh:
+    with open(res + ".%d" % os.getpid(), "w") as fh:
         json.dump(names, fh)
+    os.replace(res + ".%d" % os.getpid(), res)      # atomic: a concurrent reader sees the whole file or none
     cands = {v.name: v for v in candidate_types()}
     return [cands[n] for n in names]
 
